@@ -26,6 +26,11 @@ type PropConfig struct {
 	AllUnits   bool       `json:"all_units"` // every function under contract is relevant (C07)
 	Residue    string     `json:"residue"`
 	Replay     string     `json:"replay"`
+	// Bounded: drivers run in the thorough tier only, labelled bounded in the evidence, never counted as proved
+	Bounded []struct {
+		Label string     `json:"label"`
+		Rule  replayRule `json:"rule"`
+	} `json:"bounded"`
 }
 
 type KnownFinding struct {
@@ -311,9 +316,7 @@ func runCheck(repo, root, prop, tier string, rebase, verbose bool) int {
 			}
 			for _, k := range prog.keys() {
 				if re.MatchString(k) {
-					if _, has := specs.Funcs[k]; !has {
-						keys = append(keys, k)
-					}
+					keys = append(keys, k)
 				}
 			}
 		}
@@ -344,7 +347,7 @@ func runCheck(repo, root, prop, tier string, rebase, verbose bool) int {
 			go func(key string) {
 				defer wg.Done()
 				defer func() { <-sem }()
-				ur := verifyOne(prog, specs, key, tagStr, d, known, prop)
+				ur := verifyOne(prog, specs, key, tagStr, d, known, prop, len(cfg.ExtraUnits) > 0 && prop != "C07" && prop != "C08")
 				mu.Lock()
 				runs = append(runs, ur)
 				mu.Unlock()
@@ -385,7 +388,11 @@ func uniq(s []string) []string {
 	return out
 }
 
-func verifyOne(prog *Program, specs *Specs, key, tags string, d *Discharger, known []*KnownFinding, prop string) *unitRun {
+func verifyOne(prog *Program, specs *Specs, key, tags string, d *Discharger, known []*KnownFinding, prop string, sweep ...bool) *unitRun {
+	extra := ""
+	if len(sweep) > 0 && sweep[0] {
+		extra = prop
+	}
 	t0 := time.Now()
 	f := prog.ByKey[key]
 	ct := specs.Funcs[key]
@@ -396,7 +403,7 @@ func verifyOne(prog *Program, specs *Specs, key, tags string, d *Discharger, kno
 				ur.res = &UnitResult{Key: key, Aborted: map[string]int{fmt.Sprintf("engine panic: %v", r): 1}}
 			}
 		}()
-		ur.res = VerifyUnitKnown(prog, specs, f, ct, UnitOpts{}, known)
+		ur.res = VerifyUnitKnown(prog, specs, f, ct, UnitOpts{ExtraProp: extra}, known)
 		ur.insts = d.DischargeUnit(ur.res)
 		// vacuity probe: with "assert false" at every exit, at least one exit must be reachable.
 		// Only assumptions can make a unit vacuous: skip the probe when there are none.
@@ -644,6 +651,33 @@ func report(root, prop, tier string, seed int, cfg *PropConfig, runs []*unitRun,
 			}
 		}
 	}
+	// thorough tier: bounded stand-ins (labelled bounded, never counted as proved)
+	boundedNotes := []string{}
+	if tier == "thorough" {
+		for _, b := range cfg.Bounded {
+			run := runReplay(root, b.Rule, nil, ReplayInstance{})
+			switch {
+			case run == nil:
+				boundedNotes = append(boundedNotes, "BOUNDED "+b.Label+": driver could not be run")
+			case run.Reproduced:
+				rf := &ReplayFile{Property: prop, Obligation: "bounded: " + b.Label, Kind: "bounded", Replay: run, Note: "bounded driver found a failing input on the real code"}
+				path := filepath.Join(replayDir, safeName("bounded_"+b.Label)+".json")
+				data, _ := json.MarshalIndent(rf, "", " ")
+				os.WriteFile(path, append(data, '\n'), 0o644)
+				fmt.Printf("VIOLATION property=%s replay=%s\n", prop, path)
+				fmt.Printf("  bounded driver (%s): %s\n", b.Label, firstLineWith(run.Output, "REPRODUCED"))
+				violations = append(violations, "bounded: "+b.Label)
+				code = 1
+				boundedNotes = append(boundedNotes, "BOUNDED "+b.Label+": "+firstLineWith(run.Output, "REPRODUCED"))
+			default:
+				boundedNotes = append(boundedNotes, "BOUNDED "+b.Label+": no failing input up to the bound ("+firstLineWith(run.Output, "BOUNDED-OK")+")")
+			}
+		}
+	} else {
+		for _, b := range cfg.Bounded {
+			boundedNotes = append(boundedNotes, "BOUNDED "+b.Label+": thorough tier only, not run")
+		}
+	}
 	// evidence
 	var samples []sample
 	for _, id := range claimedIDs {
@@ -708,7 +742,7 @@ func report(root, prop, tier string, seed int, cfg *PropConfig, runs []*unitRun,
 		"tool_errors":              toolErrs,
 		"contract_files":           contractFiles,
 		"tag_configurations":       cfg.Tags,
-		"bounded":                  []string{},
+		"bounded":                  boundedNotes,
 	}
 	ev := Evidence{PropertyID: prop, Tier: tier, Seed: seed, Level: "proof", Coverage: cov, Assumptions: assumptions, WallS: time.Since(t0).Seconds(), Violations: len(violations)}
 	os.MkdirAll(filepath.Join(outDir, "evidence"), 0o755)
@@ -767,4 +801,13 @@ func truncate(s string, n int) string {
 		return s
 	}
 	return s[:n] + "..."
+}
+
+func firstLineWith(out, what string) string {
+	for _, l := range strings.Split(out, "\n") {
+		if strings.Contains(l, what) {
+			return strings.TrimSpace(l)
+		}
+	}
+	return ""
 }
